@@ -6,7 +6,12 @@ to up to three different instances - an observer list - either bound once and ke
 every registration), unique, executor (value / exception), wait_until, sleep (positive, zero and negative
 durations), spin loops around task.sleep(0 / <0 / tiny), raise, cancel of itself; optionally a waiter task that
 task.wait()s for the victim and reports what it sees.  task.create children with the same start instant may be
-created by one spawner run in one go (siblings that are all ready at the same time).
+created by one spawner run in one go (siblings that are all ready at the same time).  The waiter may be given a SET of
+tasks (the victim and other runs), may arrive only after some of them have finished, and may use timeout= or
+return_when=FIRST_COMPLETED.  Programs may be @time_trigger("shutdown") functions: they are all started, after the
+other runs are over, by ONE unload of the config entry / reload of the script by name / reload after touching or
+deleting the file (several shutdown runs, some of which suspend).  A creator run may give its task.create child a done
+callback and cancel it right away (before the child's first step) or a few loop passes later, then wait for it.
 
 Fault enumeration: the scenario is run once fault-free; then it is re-run with ONE cancellation of
 the victim task placed at every loop pass of the victim's life (capped in the quick tier), through
@@ -17,7 +22,13 @@ fault-free markers; each registered done callback (one per callback function: th
 instances are two functions) runs exactly once with its arguments; the waiter sees the right outcome; at final
 quiescence pyscript's registries hold nothing for finished tasks.  A run that sleeps/waits gives way: every
 task.sleep(), whatever its duration, suspends the run for at least one loop pass, and a run that had already been
-created (and not yet started) when another run went to sleep starts before the sleeper carries on.
+created (and not yet started) when another run went to sleep starts before the sleeper carries on.  Every program run
+has a task of its own (no two programs share task.current_task()); the shutdown runs of one unload all start within
+50 ms of the first one, whatever the others do, and the unload/reload returns; task.wait() returns every task it was
+given in exactly one of done / pending (a task finished before the call is done; without timeout/return_when all are
+done) and result()/cancelled() of each done task is that run's outcome; a done callback reads the same arguments
+after a suspension of its own; every task.executor call that delivered went through the loop's executor; the
+creator's task.cancel(child) does not raise, the child ends cancelled, its callback runs exactly once.
 """
 
 from __future__ import annotations
@@ -34,7 +45,12 @@ RULE = (
     "seeded generation of task graphs (<=4 programs of <=7 steps; per scenario knobs: share of done callbacks that are "
     "bound methods of a script class on different instances and whether they are bound once or looked up per "
     "registration, share of sleeps with a zero/negative duration, spin loops around task.sleep(<=0), task.create "
-    "siblings spawned in one go); per scenario one fault-free run plus one run per "
+    "siblings spawned in one go, task.wait on a set of 1..4 tasks arriving 4 passes / 0.3 / 0.8 / 1.5 s after the "
+    "victim started with no / timeout= / return_when= argument, 30 %: 1-3 non-victim programs are "
+    "@time_trigger('shutdown') functions started together by unload / reload by name / touch+reload / delete+reload, "
+    "16 %: a creator run cancelling its task.create child 0 / 1 / 3 passes after creating it; steer coins keep, in "
+    "half of the scenarios each, done callbacks and task.cancel() out of shutdown runs, sleeping callbacks to one "
+    "program, and the creator's cancel after the child's start); per scenario one fault-free run plus one run per "
     "cancellation point = every loop pass between the victim's start and its end (+2), capped at 40 evenly spread "
     "points in the quick tier, complete in the thorough tier; distinct = scenario digest; non-trivial = at least one "
     "cancellation actually landed on a suspended victim"
@@ -54,6 +70,20 @@ ASSUMPTIONS = [
     "ready-run rule: a run whose task existed but had not started when another run executed the marker in front of "
     "a sleep / wait_until / blocking service call must emit its start marker before the sleeper's next marker "
     "(the event loop serves ready tasks in FIFO order; a run's start marker is reached in its first slice)",
+    "task.wait(): asyncio.wait semantics as referred to by the documentation - every given task is returned in done "
+    "or pending; with timeout=/return_when= a still-running victim may legitimately be pending (its outcome is then "
+    "not judged); result() of a run that raised is not documented (don't-care); result() of trigger/service runs "
+    "only has to be 'finished, not cancelled'",
+    "shutdown runs: never the victim; they use no blocking call of the script's own services (already removed); "
+    "whether a reload waits for the shutdown runs of the old script is not decided by this property (a reload by "
+    "name does not), so they get 9 s to end after the unload/reload was requested; 'not delayed' = started within "
+    "50 ms of the first shutdown run of the same unload; a reloaded script's shutdown functions run again when the "
+    "world is torn down: markers after the driver's end are ignored",
+    "findings on the unchanged code kept visible in half of the scenarios that contain the construct (steer coins): "
+    "legacy shutdown run + task.add_done_callback(task.current_task()) [C14.done_callback_rejected]; legacy shutdown "
+    "run + task.cancel() [C14.shutdown_never_returned]; two tasks whose sleeping done callbacks overlap "
+    "[C14.callback_args when=after_its_suspension]; task.cancel(child) before the child's first step "
+    "[C14.cancel_rejected]",
 ]
 TIERS = {
     "quick": {"runs": 200, "chunk": 7, "max_points": 40, "chunk_timeout": 900},
@@ -64,7 +94,10 @@ REACH_PROBES = ["cancel_landed", "cancel_in_done_callback", "cancel_during_execu
                 "waiter_saw_cancelled", "callback_removed", "cancel_by_unique_takeover", "takeover_before_claim",
                 "two_bound_methods_on_one_task", "bound_method_replaced_or_removed", "bound_method_fresh_lookup",
                 "sleep_zero_or_negative", "spin_loop", "cancel_in_sleep0", "siblings_spawned_together",
-                "ready_run_while_other_sleeps", "ready_run_while_other_sleeps0"]
+                "ready_run_while_other_sleeps", "ready_run_while_other_sleeps0",
+                "wait_on_task_set", "wait_some_already_finished", "wait_all_already_finished", "wait_with_timeout",
+                "wait_first_completed", "shutdown_run", "shutdown_runs_together", "executor_call",
+                "child_cancelled_before_first_step", "child_cancelled_after_start"]
 SHRINK_LISTS = [["spec", "progs"], ["spec", "progs", "*", "steps"]]
 GRID = 0.25
 CB_KINDS = ["plain", "sleep", "raise"]
@@ -72,6 +105,11 @@ METHOD_KINDS = ["m0", "m1", "m2"]  # Watcher.on_done bound to watchers[0..2]
 ZERO_DURS = [0, 0, -1, -0.25]  # task.sleep() durations that ask for "just let the others run"
 SPIN_DURS = [0, 0, -1, 0.001]
 SUSPENDING = ("sleep", "spin", "wait_until", "call_svc")
+WAIT_AFTER = [None, None, 0.3, 0.8, 1.5]  # None: 4 loop passes after the victim started; else seconds after it
+WAIT_KW = [None, None, None, ["timeout", 0.4], ["first"]]  # task.wait(): plain / timeout= / return_when=FIRST_COMPLETED
+# unload the config entry / reload the script by name / touch it and reload / delete it and reload
+SHUTDOWN_VIA = ["unload", "reload", "touch", "delete"]
+SHUTDOWN_HORIZON = 9.0
 
 
 # ------------------------------------------------------------------ generation
@@ -160,6 +198,60 @@ def gen(rng: random.Random, tier: str) -> dict:
     fault = {"mode": "enumerate", "via": rng.choice(["reaper", "reaper", "raw", "takeover"]), "iter": None}
     if fault["via"] == "takeover" and not any(s[0] == "unique" for s in progs[victim]["steps"]):
         progs[victim]["steps"].insert(0, ["unique"])
+    # the waiter may be given a SET of tasks (the victim plus other runs), may arrive when some of them have already
+    # finished, and may use asyncio.wait's timeout= / return_when= arguments
+    spec["wait_set"] = []
+    spec["wait_after"] = None
+    spec["wait_kw"] = None
+    if spec["waiter"]:
+        others = [t for t in range(n) if t != victim]
+        if others and rng.random() < 0.6:
+            spec["wait_set"] = sorted(rng.sample(others, rng.randint(1, len(others))))
+        spec["wait_after"] = rng.choice(WAIT_AFTER)
+        spec["wait_kw"] = rng.choice(WAIT_KW)
+    # shutdown runs: @time_trigger("shutdown") functions, all started by ONE unload / reload / removal of the script
+    # after the other runs are over (never the victim: the cancellation points stay in the main phase)
+    if rng.random() < 0.3:
+        want = rng.choice([1, 2, 2, 3])
+        while len(progs) < min(4, want + 1):
+            progs.append({"tid": len(progs), "entry": rng.choice(["service", "trigger", "create"]),
+                          "steps": _gen_steps(rng, False, knobs), "ret": rng.randint(100, 199),
+                          "k": rng.choice([0, 0, 1, 2])})
+        pool = [p["tid"] for p in progs if p["tid"] != victim]
+        # steer coins (findings on the unchanged code, see ASSUMPTIONS): half of the scenarios keep done callbacks /
+        # task.cancel() out of the shutdown runs, so that the rest of the shutdown behaviour keeps being judged
+        spec["steer_sd_cb"] = rng.random() < 0.5
+        spec["steer_sd_cancel"] = rng.random() < 0.5
+        for tid in rng.sample(pool, min(want, len(pool))):
+            progs[tid]["entry"] = "shutdown"
+            # the script's own services are gone by the time a shutdown run executes: no blocking service call
+            steps = [["sleep", s[1]] if s[0] == "call_svc" else s for s in progs[tid]["steps"]]
+            if spec["steer_sd_cb"]:
+                steps = [s for s in steps if s[0] not in ("add_cb", "remove_cb")]
+            if spec["steer_sd_cancel"]:
+                steps = [s for s in steps if s[0] != "cancel_self"]
+            progs[tid]["steps"] = steps
+        spec["shutdown_via"] = rng.choice(SHUTDOWN_VIA)
+        spec["wait_set"] = [t for t in spec["wait_set"] if progs[t]["entry"] != "shutdown"]
+    # steer coin (finding on the unchanged code: suspended done callbacks of two tasks swap their arguments): in half
+    # of the scenarios only one program registers the sleeping callback
+    spec["steer_one_sleeping_cb"] = rng.random() < 0.5
+    if spec["steer_one_sleeping_cb"]:
+        keep = None
+        for prog in progs:
+            if any(s[0] == "add_cb" and s[1] == "sleep" for s in prog["steps"]):
+                if keep is None:
+                    keep = prog["tid"]
+                    continue
+                prog["steps"] = [[s[0], "plain"] + s[2:] if s[0] in ("add_cb", "remove_cb") and s[1] == "sleep" else s
+                                 for s in prog["steps"]]
+    # a creator run that gives its task.create child a done callback and cancels it: right away (the child has not
+    # executed a single step yet) or some loop passes later; then waits for it
+    spec["kid"] = None
+    if rng.random() < 0.16:
+        started = rng.random() < 0.5  # steer coin: half of these scenarios let the child start first
+        spec["kid"] = {"after": rng.choice([1, 3]) if started else 0, "k": rng.choice([0, 1, 2, 5]),
+                       "tag": rng.randint(1000, 1099), "cb": rng.choice(["plain", "raise"])}
     return {"cfg": cfg, "spec": spec, "fault": fault, "ops": [], "max_points": TIERS[tier]["max_points"]}
 
 
@@ -203,6 +295,9 @@ def render(scn: dict) -> dict:
         tid = prog["tid"]
         if prog["entry"] == "trigger":
             lines.append(f"@event_trigger('go_{tid}')")
+            lines.append(f"def p{tid}(**kw):")
+        elif prog["entry"] == "shutdown":
+            lines.append("@time_trigger('shutdown')")
             lines.append(f"def p{tid}(**kw):")
         elif prog["entry"] == "service":
             lines.append("@service")
@@ -270,29 +365,73 @@ def render(scn: dict) -> dict:
     lines += [
         "    pass",
         "",
+        "def outcome(t):",
+        "    if t.cancelled():",
+        "        return 'cancelled'",
+        "    try:",
+        "        return ['result', t.result()]",
+        "    except Exception as exc:",
+        "        return ['exception', type(exc).__name__]",
+        "",
         "@service",
-        "def waiter(tid=None):",
+        "def waiter(tid=None, tids=None, kw=None):",
         "    t = sim.get('task_of')(tid)",
         "    if t is None:",
         "        sim.mark('waiter', 'notask')",
         "        return",
-        "    done, pending = task.wait({t})",
+        "    given = {tid: t}",
+        "    for other in tids or []:",
+        "        t2 = sim.get('task_of')(other)",
+        "        if t2 is not None:",
+        "            given[other] = t2",
+        "    before = {}",
+        "    for x in given:",
+        "        before[x] = given[x].done()",
+        "    done, pending = task.wait(set(given.values()), **(kw or {}))",
         "    out = 'pending'",
         "    if t in done:",
-        "        if t.cancelled():",
-        "            out = 'cancelled'",
-        "        else:",
-        "            out = ['result', t.result()]",
-        "    sim.mark('waiter', 'saw', out=out, ndone=len(done), npending=len(pending))",
+        "        out = outcome(t)",
+        "    where = {}",
+        "    outs = {}",
+        "    for x in given:",
+        "        where[x] = [given[x] in done, given[x] in pending, given[x].done()]",
+        "        if given[x] in done:",
+        "            outs[x] = outcome(given[x])",
+        "    sim.mark('waiter', 'saw', out=out, ndone=len(done), npending=len(pending), before=before, where=where,",
+        "             outs=outs)",
         "",
     ]
+    kid = scn["spec"].get("kid")
+    if kid:
+        lines += [
+            "def kid():",
+            "    sim.mark('kid', 'start')",
+            "    task.sleep(0.4)",
+            "    sim.mark('kid', 'end')",
+            "    return 7",
+            "",
+            "@service",
+            "def kid_spawner(after=None, tag=None):",
+            "    t = task.create(kid)",
+            f"    task.add_done_callback(t, cb_{kid['cb']}, tag)",
+            "    for i in range(after):",
+            "        task.sleep(0)",
+            "    sim.mark('kidsp', 'cancelling', child=t)",
+            "    task.cancel(t)",
+            "    sim.mark('kidsp', 'cancelled')",
+            "    done, pending = task.wait({t})",
+            "    sim.mark('kidsp', 'waited', out=outcome(t), ndone=len(done))",
+            "",
+        ]
     return {"pyscript/c14.py": "\n".join(lines) + "\n"}
 
 
 def normalize(scn: dict) -> dict | None:
     progs = scn["spec"]["progs"]
-    if not any(p["tid"] == scn["spec"]["victim"] for p in progs):
+    if not any(p["tid"] == scn["spec"]["victim"] and p["entry"] != "shutdown" for p in progs):
         return None
+    if any(p["entry"] == "shutdown" and any(s[0] == "call_svc" for s in p["steps"]) for p in progs):
+        return None  # the script's services are gone when a shutdown run executes
     if scn["spec"].get("method_lookup") == "fresh":
         # undecided by the documentation (see ASSUMPTIONS): the same instance's method registered twice / removed
         for prog in progs:
@@ -328,6 +467,23 @@ def simplify(scn: dict):
         cand = copy.deepcopy(scn)
         cand["spec"]["waiter"] = False
         yield cand
+        for key in ("wait_kw", "wait_after"):
+            if scn["spec"].get(key):
+                cand = copy.deepcopy(scn)
+                cand["spec"][key] = None
+                yield cand
+        for tid in scn["spec"].get("wait_set") or []:
+            cand = copy.deepcopy(scn)
+            cand["spec"]["wait_set"] = [t for t in scn["spec"]["wait_set"] if t != tid]
+            yield cand
+    if scn["spec"].get("kid"):
+        cand = copy.deepcopy(scn)
+        cand["spec"]["kid"] = None
+        yield cand
+    if (scn["spec"].get("shutdown_via") or "unload") != "unload":
+        cand = copy.deepcopy(scn)
+        cand["spec"]["shutdown_via"] = "unload"
+        yield cand
     if scn["spec"].get("spawn_group"):
         cand = copy.deepcopy(scn)
         cand["spec"]["spawn_group"] = False
@@ -361,6 +517,13 @@ class C14World(World):
         task = super()._task_factory(loop, coro, **kwargs)
         self.task_born[self.task_label[id(task)]] = len(self.marks)
         return task
+
+
+def _wait_kwargs(spec: dict) -> dict:
+    kw = spec.get("wait_kw")
+    if not kw:
+        return {}
+    return {"timeout": kw[1]} if kw[0] == "timeout" else {"return_when": "FIRST_COMPLETED"}
 
 
 def _zeroish(step) -> bool:
@@ -446,6 +609,8 @@ def execute(scn: dict, k_cancel: int | None) -> dict:
     w.mark_hook = hook
 
     async def driver(w: World):
+        import asyncio
+
         from custom_components.pyscript.function import Function
 
         w.natives["fn_ok"] = fn_ok
@@ -455,8 +620,20 @@ def execute(scn: dict, k_cancel: int | None) -> dict:
         await w.started()
         base = w.loop.vt
         spawned: set = set()
+        wait_data = {"tid": vic, "tids": list(spec.get("wait_set") or []), "kw": _wait_kwargs(spec)}
+
+        async def late_waiter(delay):
+            await w.sleep(delay)
+            await w.call_service("pyscript", "waiter", wait_data, blocking=False)
+
+        async def kid_call(kid):
+            await w.sleep(0.5 + kid["k"] * GRID + 0.1)
+            await w.call_service("pyscript", "kid_spawner", {"after": kid["after"], "tag": kid["tag"]}, blocking=False)
+
+        if spec.get("kid"):
+            asyncio.ensure_future(kid_call(spec["kid"]))
         for prog in sorted(spec["progs"], key=lambda p: (p["k"], p["tid"])):
-            if prog["tid"] in spawned:
+            if prog["tid"] in spawned or prog["entry"] == "shutdown":
                 continue
             target = base + 0.5 + prog["k"] * GRID
             if target > w.loop.vt:
@@ -475,10 +652,42 @@ def execute(scn: dict, k_cancel: int | None) -> dict:
             else:
                 w.fire(f"go_{prog['tid']}", {})
             if vic in tids and spec["waiter"]:
-                await w.passes(4)
-                await w.call_service("pyscript", "waiter", {"tid": vic}, blocking=False)
+                if spec.get("wait_after"):
+                    # the waiter arrives later, when some of the tasks it waits for may already be over; the other
+                    # programs' start instants are not disturbed
+                    asyncio.ensure_future(late_waiter(spec["wait_after"]))
+                else:
+                    await w.passes(4)
+                    await w.call_service("pyscript", "waiter", wait_data, blocking=False)
         await w.sleep(base + 8.0 - w.loop.vt)
         await w.drain()
+        # ---- shutdown runs: one unload / reload / removal of the script starts all of them
+        if any(p["entry"] == "shutdown" for p in spec["progs"]):
+            via_sd = spec.get("shutdown_via") or "unload"
+            obs["shutdown_at"] = w.loop.vt
+            obs["shutdown_mark0"] = len(w.marks)
+            if via_sd == "unload":
+                fut = asyncio.ensure_future(w.unload_entry())
+            elif via_sd in ("delete", "touch"):
+                if via_sd == "delete":
+                    w.delete_file("pyscript/c14.py")
+                else:
+                    w.touch_file("pyscript/c14.py")
+                fut = asyncio.ensure_future(w.reload())
+            else:
+                fut = asyncio.ensure_future(w.reload("file.c14"))
+            await asyncio.wait({fut}, timeout=SHUTDOWN_HORIZON)
+            obs["shutdown_returned"] = fut.done()
+            if not fut.done():
+                fut.cancel()
+                await asyncio.wait({fut}, timeout=1.0)
+            elif fut.exception() is not None:
+                raise fut.exception()
+            # (a reload by name stops the old script only while it loads the new one and does not wait for the old
+            # shutdown runs; whether it should is not this property's business: just give them time to end)
+            if w.loop.vt < obs["shutdown_at"] + SHUTDOWN_HORIZON:
+                await w.sleep(obs["shutdown_at"] + SHUTDOWN_HORIZON - w.loop.vt)
+            await w.drain()
         # ---- registries at final quiescence
         finished = lambda t: t.done()  # noqa: E731
         obs["registries"] = {
@@ -491,10 +700,12 @@ def execute(scn: dict, k_cancel: int | None) -> dict:
         obs["alive_runs"] = sorted(tid for tid, t in obs["task_of"].items() if not t.done())
         obs["exec_jobs"] = list(w.loop.exec_job_log)
         obs["task_born"] = dict(w.task_born)
+        obs["n_marks"] = len(w.marks)
 
     w.run(driver)
     obs["w"] = w
-    obs["marks"] = w.marks
+    # (a reloaded script's shutdown functions run once more when the world is torn down: not part of the scenario)
+    obs["marks"] = w.marks[: obs["n_marks"]]
     return obs
 
 
@@ -572,6 +783,81 @@ def _give_way(scn: dict, obs: dict, viol) -> None:
                          f"p{other} started (marker #{sgi})")
 
 
+def _judge_wait_set(spec: dict, obs: dict, progs: dict, rep: dict, viol, w) -> bool:
+    """task.wait() on a set of tasks: what the waiter run saw. Returns True when the victim was (legitimately) pending.
+
+    From the documentation: every task given is returned, in ``done`` or in ``pending``; without timeout= /
+    return_when= all of them are done and ``pending`` is empty; a task that had finished before the call is done;
+    task_id.result() of a finished task.create task is the function's return value."""
+    where = rep.get("where")
+    if where is None:
+        return False  # (a replay of an old scenario rendered by an old script)
+    before = rep.get("before") or {}
+    outs = rep.get("outs") or {}
+    kw = spec.get("wait_kw")
+    form = kw[0] if kw else "plain"
+    given = sorted(where)
+    vic = spec["victim"]
+    n_before = sum(1 for x in given if before.get(x))
+    if len(given) >= 2:
+        w.probe("wait_on_task_set")
+        if 0 < n_before < len(given):
+            w.probe("wait_some_already_finished")
+    if n_before == len(given):
+        w.probe("wait_all_already_finished")
+    if kw:
+        w.probe("wait_with_timeout" if kw[0] == "timeout" else "wait_first_completed")
+    for x in given:
+        in_done, in_pend, is_done = (bool(v) for v in where[x])
+        sig = {"form": form, "finished_before_call": bool(before.get(x))}
+        if not in_done and not in_pend:
+            viol("C14.wait_lost_task", sig,
+                 f"task.wait({form}) on the tasks of programs {given}: the task of p{x} is in neither done nor pending "
+                 f"(finished before the call: {before}; [in done, in pending, done()] after: {where})")
+        elif in_done and in_pend:
+            viol("C14.wait_task_in_both", sig, f"task.wait({form}): the task of p{x} is in done AND in pending: {where}")
+        elif in_pend and before.get(x):
+            viol("C14.wait_outcome", {"want": "done", **sig},
+                 f"task.wait({form}): the task of p{x} had finished before the call but is reported pending: {where}")
+        elif in_done and not is_done:
+            viol("C14.wait_outcome", {"want": "pending", **sig},
+                 f"task.wait({form}): the task of p{x} is reported done but task_id.done() is false: {where}")
+        elif in_pend and not kw:
+            viol("C14.wait_outcome", {"want": "done", **sig},
+                 f"task.wait() without timeout/return_when returned with the task of p{x} pending: {where}")
+    n_done = sum(1 for x in given if where[x][0])
+    n_pend = sum(1 for x in given if where[x][1])
+    if kw and kw[0] == "first" and not n_done and n_pend:
+        viol("C14.wait_outcome", {"want": "one_done", "form": form},
+             f"task.wait(return_when=FIRST_COMPLETED) returned with nothing done: {where}")
+    if (rep.get("ndone"), rep.get("npending")) != (n_done, n_pend) and n_done + n_pend == len(given):
+        viol("C14.wait_foreign_task", {"form": form},
+             f"task.wait({form}) returned {rep.get('ndone')} done / {rep.get('npending')} pending tasks, of which "
+             f"only {n_done} / {n_pend} were given to it")
+    # the outcome of the other finished tasks (the victim's is judged by the caller)
+    for x in given:
+        if x == vic or x not in outs or x not in progs:
+            continue
+        prog = progs[x]
+        names = [s[0] for s in _seq(obs, x)]
+        reached = [prog["steps"][nm[1]][0] for nm in names if nm[0] == "pre" and nm[1] < len(prog["steps"])]
+        got = outs[x]
+        if ("end",) in names:
+            want = ["result", prog["ret"]] if prog["entry"] == "create" else "anyresult"
+        elif reached and reached[-1] == "cancel_self":
+            want = "cancelled"
+        else:
+            continue  # raised: logged by pyscript; what result() gives is not documented
+        if want == "anyresult":
+            ok = isinstance(got, list) and got[0] == "result"
+        else:
+            ok = got == want
+        if not ok:
+            viol("C14.wait_outcome", {"want": want if isinstance(want, str) else "result", "who": "bystander"},
+                 f"task.wait/result on the task of p{x} ({prog['entry']}) reported {got!r}, expected {want!r}")
+    return bool(kw) and vic in where and bool(where[vic][1]) and not where[vic][0]
+
+
 def judge(scn: dict, obs: dict, base: dict | None, sub: str) -> list:
     """Violations of one execution (base=None: the fault-free run itself)."""
     spec = scn["spec"]
@@ -598,6 +884,18 @@ def judge(scn: dict, obs: dict, base: dict | None, sub: str) -> list:
         viol("C14.run_never_finished", {}, f"runs of programs {obs['alive_runs']} still alive 8 s after start")
     if w.ha_exceptions:
         viol("C14.escaped_to_ha", {}, f"Home Assistant logged/handled: {w.ha_exceptions[:2]}")
+    # ---- task.executor runs the function off the event loop: every call that delivered a value / an exception went
+    # through the loop's executor
+    for fn, kind in (("fn_ok", "ok"), ("fn_raise", "raise")):
+        n_marks = sum(1 for m in obs["marks"] if m["args"][0] == "p" and m["args"][2] == "exec" and m["args"][1] in progs
+                      and m["args"][3] < len(progs[m["args"][1]]["steps"])
+                      and progs[m["args"][1]]["steps"][m["args"][3]][1:2] == [kind])
+        n_jobs = sum(1 for j in obs["exec_jobs"] if f".{fn} " in j)
+        if n_marks:
+            w.probe("executor_call")
+        if n_jobs < n_marks:
+            viol("C14.executor_on_loop", {"kind": kind},
+                 f"{n_marks} task.executor({fn}) calls returned but only {n_jobs} jobs went through the executor")
     # ---- every program: markers, callbacks, executor
     vic_cancel_in_cb = False
     for tid, prog in progs.items():
@@ -625,7 +923,15 @@ def judge(scn: dict, obs: dict, base: dict | None, sub: str) -> list:
                 break
         if not is_victim:
             exp_posts = len(steps) if natural_stop is None else natural_stop
-            if n_done_steps != exp_posts or ended != (natural_stop is None):
+            stuck = next((steps[nm[1]] for nm in names if nm[0] == "pre" and nm[1] < len(steps)
+                          and ("post", nm[1]) not in names), None)
+            if stuck is not None and stuck[0] in ("add_cb", "remove_cb") and not (tid == vic and cancel):
+                # these steps do not suspend: the run can only have stopped here because the call itself raised
+                viol("C14.done_callback_rejected", {"entry": prog["entry"], "op": stuck[0]},
+                     f"p{tid} ({prog['entry']}) stopped in step {stuck}: task.{'add' if stuck[0] == 'add_cb' else 'remove'}"
+                     f"_done_callback(task.current_task(), ...) raised, so the run's done callbacks cannot be "
+                     f"registered; completed {n_done_steps}/{exp_posts} steps")
+            elif n_done_steps != exp_posts or ended != (natural_stop is None):
                 viol("C14.bystander_disturbed" if base is not None else "C14.run_incomplete",
                      {"entry": prog["entry"]},
                      f"p{tid} completed {n_done_steps}/{exp_posts} steps, end={ended}")
@@ -698,8 +1004,90 @@ def judge(scn: dict, obs: dict, base: dict | None, sub: str) -> list:
                      f"p{tid} callback cb_{kind}({tag}) never ran; registered {exp}, ran {started}")
             else:
                 viol("C14.callback_ran_twice", {"kind": kind}, f"p{tid} callback cb_{kind} ran {cnt} times")
-        for kind in set(got_kinds) - set(exp):
+        # a callback keeps its arguments across a suspension of its own (whatever other callbacks run meanwhile)
+        for m in cbs:
+            if m["args"][1] == "sleep" and m["args"][3] == "end":
+                began = [t for k, t in started if k == "sleep"]
+                if began and m["args"][2] not in began:
+                    viol("C14.callback_args", {"kind": "sleep", "when": "after_its_suspension"},
+                         f"p{tid} callback cb_sleep was started with {began} but after its task.sleep() its argument "
+                         f"reads {m['args'][2]}")
+        for kind in sorted(set(got_kinds) - set(exp)):
             viol("C14.callback_unexpected", {"kind": kind}, f"p{tid} callback cb_{kind} ran but was not registered/was removed: {exp}")
+    # ---- a child cancelled by its creator (possibly before its first step)
+    kid = spec.get("kid")
+    if kid:
+        ksp = [m["args"][1] for m in obs["marks"] if m["args"][0] == "kidsp"]
+        kmarks = [m["args"][1] for m in obs["marks"] if m["args"][0] == "kid"]
+        order = [m["args"][:2] for m in obs["marks"] if m["args"][0] in ("kid", "kidsp")]
+        child_started = ["kid", "start"] in order and (
+            ["kidsp", "cancelling"] not in order or order.index(["kid", "start"]) < order.index(["kidsp", "cancelling"]))
+        w.probe("child_cancelled_after_start" if child_started else "child_cancelled_before_first_step")
+        sig = {"child_started": child_started}
+        ran = [m for m in obs["marks"] if m["args"][0] == "cb" and m["args"][2] == kid["tag"] and m["args"][3] == "start"]
+        waited = next((m for m in obs["marks"] if m["args"][:2] == ["kidsp", "waited"]), None)
+        if "cancelling" not in ksp:
+            viol("C14.run_incomplete", {"entry": "kid_spawner"}, f"the creator run did not get to its task.cancel: {ksp}")
+        elif "cancelled" not in ksp:
+            viol("C14.cancel_rejected", sig,
+                 f"task.cancel(child) raised in the creator run (child markers {kmarks}): task.cancel cancels the task "
+                 f"returned by task.create")
+        else:
+            if "end" in kmarks:
+                viol("C14.cancel_swallowed", {"where": "child", **sig}, f"the cancelled child ran to its end: {kmarks}")
+            if waited is None:
+                viol("C14.wait_never_returned", {"who": "creator", **sig},
+                     f"task.wait on the cancelled child did not return: {ksp}")
+            elif waited["raw_kw"].get("out") != "cancelled":
+                viol("C14.wait_outcome", {"want": "cancelled", "who": "creator", **sig},
+                     f"task.wait/result on the cancelled child reported {waited['raw_kw'].get('out')!r}")
+        if len(ran) != 1 and ("cancelled" in ksp or "end" in kmarks):
+            viol("C14.callback_not_run" if not ran else "C14.callback_ran_twice",
+                 {"pattern": "child_cancelled_by_creator", **sig} if not ran else {"kind": kid["cb"], **sig},
+                 f"the done callback cb_{kid['cb']}({kid['tag']}) the creator gave its child ran {len(ran)} times "
+                 f"(child markers {kmarks}, creator markers {ksp})")
+    # ---- every run is a task of its own
+    owner: dict = {}
+    for tid in sorted(progs):
+        label = next((m["task"] for m in obs["marks"] if m["args"][:3] == ["p", tid, "start"]), None)
+        if label is None:
+            continue
+        if label in owner:
+            viol("C14.runs_share_task", {"entries": sorted([progs[owner[label]]["entry"], progs[tid]["entry"]])},
+                 f"p{owner[label]} ({progs[owner[label]]['entry']}) and p{tid} ({progs[tid]['entry']}) ran in the same "
+                 f"task #{label}: every trigger occurrence / service call / task.create starts its own task")
+        else:
+            owner[label] = tid
+    # ---- shutdown runs: all started by one unload/reload; none waits for another one, the unload returns
+    sd = sorted(tid for tid, p in progs.items() if p["entry"] == "shutdown")
+    if sd:
+        via_sd = spec.get("shutdown_via") or "unload"
+        w.probe("shutdown_run")
+        if len(sd) >= 2:
+            w.probe("shutdown_runs_together")
+        if not obs.get("shutdown_returned"):
+            selfc = sorted(tid for tid in sd if any(
+                m["args"][:3] == ["p", tid, "pre"] and m["args"][3] < len(progs[tid]["steps"])
+                and progs[tid]["steps"][m["args"][3]][0] == "cancel_self" for m in obs["marks"]))
+            viol("C14.shutdown_never_returned", {"via": via_sd, "a_shutdown_run_cancelled_itself": bool(selfc)},
+                 f"{via_sd} of the script did not return within {SHUTDOWN_HORIZON} s; shutdown programs {sd}, of "
+                 f"which {selfc} ended with task.cancel(): one run's exit blocks everything that comes after the "
+                 f"unload (the next load of the script, all later runs)")
+        first = {}
+        for tid in sd:
+            at = next((m["vt"] for m in obs["marks"] if m["args"][:3] == ["p", tid, "start"]), None)
+            if at is not None:
+                first[tid] = at
+        if first:
+            t0 = min(first.values())
+            if t0 < obs["shutdown_at"]:
+                viol("C14.shutdown_run_early", {"via": via_sd}, f"a shutdown run started before the {via_sd}: {first}")
+            for tid, at in sorted(first.items()):
+                if at - t0 > 0.05:
+                    viol("C14.run_delayed", {"entry": "shutdown", "via": via_sd},
+                         f"shutdown run p{tid} started {at - t0:.3f} s after the first shutdown run of the same "
+                         f"{via_sd} (starts, relative: { {k: round(v - t0, 4) for k, v in sorted(first.items())} }): "
+                         f"it was held up by another run")
     # ---- sleeping / waiting runs give way
     _give_way(scn, obs, viol)
     # ---- waiter
@@ -711,6 +1099,7 @@ def judge(scn: dict, obs: dict, base: dict | None, sub: str) -> list:
                 viol("C14.wait_never_returned", {}, f"task.wait on the victim returned {len(saw)} times")
         else:
             out_val = saw[0]["raw_kw"].get("out")
+            vic_pending = _judge_wait_set(spec, obs, progs, saw[0]["raw_kw"], viol, w)
             steps = prog["steps"]
             self_cancel = any(s[0] == "cancel_self" for s in steps)
             vic_ended = ("end",) in [s[0] for s in _seq(obs, vic)]
@@ -726,6 +1115,8 @@ def judge(scn: dict, obs: dict, base: dict | None, sub: str) -> list:
                 want = ["result", None]  # raised: pyscript logs and the task returns None
             if landed and (cancel["in_cb"] or vic_cancel_in_cb):
                 want = None  # body finished, cancelled inside its done callbacks: don't-care
+            if vic_pending:
+                want = None  # timeout= / return_when=: the victim was legitimately still pending
             if want == "cancelled":
                 w.probe("waiter_saw_cancelled")
             if want == "anyresult":
